@@ -44,7 +44,8 @@ class C11(hc.PProp):
             elif mode == 'req_nostore':
                 url['cc'] = rng.choice(RESP_OK); r1h = [('Cache-Control', rng.choice(REQ_NOSTORE))]
             elif mode == 'auth':
-                url['cc'] = rng.choice(['max-age=1000', None, 'max-age=1000, no-transform']); r1h = [('Authorization', 'Basic dXNlcjpwYXNz')]
+                url['cc'] = rng.choice(['max-age=1000', None, 'max-age=1000, no-transform', 'proxy-revalidate, max-age=1000', 'max-age=1000, proxy-revalidate', 'max-age=1000, immutable',
+                                        'max-age=1000, stale-while-revalidate=60', 'max-age=1000, must-understand', 'Max-Age=1000, PROXY-REVALIDATE']); r1h = [('Authorization', rng.choice(['Basic dXNlcjpwYXNz', 'Bearer abc.def', 'Digest username="u"']))]   # none of these directives permits a shared cache to store it (RFC 9111 3.5: only public, must-revalidate, s-maxage do)
             elif mode == 'auth_ok':
                 url['cc'] = rng.choice(['public, max-age=1000', 'max-age=1000, must-revalidate', 's-maxage=1000']); r1h = [('Authorization', 'Basic dXNlcjpwYXNz')]
             else:
